@@ -151,7 +151,14 @@ PROVIDERS = [ax_bool2u, ax_int2u, ax_be32, ax_unbe32, ax_s8, ax_uns8, ax_be64, a
 # --------------------------------------------------------------------------
 # struct
 # --------------------------------------------------------------------------
-STRUCT_SIZES = {"!i": 4, "!bii": 9, "!d": 8, "!dd": 16}
+# standard-size big-endian formats: "!" or ">" followed by field codes; unsigned fields are the signed codecs shifted by 2**width
+STRUCT_FIELDS = {"b": (1, True), "B": (1, False), "i": (4, True), "I": (4, False), "l": (4, True), "L": (4, False), "d": (8, None)}
+
+
+def _struct_fmt(fmt):
+    if len(fmt) < 2 or fmt[0] not in "!>" or any(c not in STRUCT_FIELDS for c in fmt[1:]):
+        raise Unsupported(f"struct format {fmt!r}")
+    return [STRUCT_FIELDS[c] for c in fmt[1:]]
 
 
 def _const_str(v: SV):
@@ -163,40 +170,32 @@ def _const_str(v: SV):
 
 def struct_pack(ex, args, kwargs, st, sink, node):
     fmt = _const_str(args[0])
-    vals = args[1:]
-    if fmt == "!i":
-        (v,) = vals
+    fields, vals = _struct_fmt(fmt), args[1:]
+    if len(fields) != len(vals):
+        raise Unsupported(f"struct.pack({fmt!r}) with {len(vals)} values")
+    ok_c, parts = [], []
+    for (size, signed), v in zip(fields, vals):
+        if signed is None:
+            if v.ty.kind != "float":
+                raise Unsupported(f"struct.pack({fmt!r}, {v.ty!r})")
+            parts.append(be64(v.v))
+            continue
         if v.ty.kind not in ("int", "bool"):
-            raise Unsupported(f"struct.pack('!i', {v.ty!r})")
+            raise Unsupported(f"struct.pack({fmt!r}, {v.ty!r})")
         i = coerce(v, INT).v
-        for s2, ok in ex.fork(st, z3.And(i >= I32_MIN, i <= I32_MAX)):
-            if ok:
-                yield s2, mk_bytes(be32(i))
-            else:
-                ex.raise_(s2, sink, "struct.error", origin=f"struct.pack('!i') line {getattr(node, 'lineno', '?')}")
-        return
-    if fmt == "!bii":
-        a, b, c = [coerce(v, INT).v for v in vals]
-        ok_c = z3.And(a >= -128, a <= 127, b >= I32_MIN, b <= I32_MAX, c >= I32_MIN, c <= I32_MAX)
-        for s2, ok in ex.fork(st, ok_c):
-            if ok:
-                yield s2, mk_bytes(z3.Concat(s8(a), be32(b), be32(c)))
-            else:
-                ex.raise_(s2, sink, "struct.error", origin=f"struct.pack('!bii') line {getattr(node, 'lineno', '?')}")
-        return
-    if fmt == "!d":
-        (v,) = vals
-        if v.ty.kind != "float":
-            raise Unsupported(f"struct.pack('!d', {v.ty!r})")
-        yield st, mk_bytes(be64(v.v))
-        return
-    if fmt == "!dd":
-        a, b = vals
-        if a.ty.kind != "float" or b.ty.kind != "float":
-            raise Unsupported("struct.pack('!dd', non-float)")
-        yield st, mk_bytes(z3.Concat(be64(a.v), be64(b.v)))
-        return
-    raise Unsupported(f"struct format {fmt!r}")
+        half = 2 ** (8 * size - 1)
+        if signed:
+            ok_c.append(z3.And(i >= -half, i <= half - 1))
+        else:
+            ok_c.append(z3.And(i >= 0, i <= 2 * half - 1))
+            i = z3.If(i >= half, i - 2 * half, i)
+        parts.append(s8(i) if size == 1 else be32(i))
+    data = parts[0] if len(parts) == 1 else z3.Concat(*parts)
+    for s2, ok in ex.fork(st, z3.And(ok_c) if ok_c else z3.BoolVal(True)):
+        if ok:
+            yield s2, mk_bytes(data)
+        else:
+            ex.raise_(s2, sink, "struct.error", origin=f"struct.pack({fmt!r}) line {getattr(node, 'lineno', '?')}")
 
 
 def struct_unpack(ex, args, kwargs, st, sink, node):
@@ -204,26 +203,28 @@ def struct_unpack(ex, args, kwargs, st, sink, node):
     data = args[1]
     if data.ty.kind != "bytes":
         raise Unsupported(f"struct.unpack on {data.ty!r}")
-    size = STRUCT_SIZES.get(fmt)
-    if size is None:
-        raise Unsupported(f"struct format {fmt!r}")
+    fields = _struct_fmt(fmt)
     d = data.v
-    for s2, ok in ex.fork(st, z3.Length(d) == size):
+    for s2, ok in ex.fork(st, z3.Length(d) == sum(sz for sz, _ in fields)):
         if not ok:
             ex.raise_(s2, sink, "struct.error", origin=f"struct.unpack({fmt!r}) line {getattr(node, 'lineno', '?')}")
             continue
-        if fmt == "!i":
-            yield s2, mk_tuple([mk_int(unbe32(d))])
-        elif fmt == "!bii":
-            yield s2, mk_tuple([mk_int(uns8(z3.SubSeq(d, 0, 1))), mk_int(unbe32(z3.SubSeq(d, 1, 4))), mk_int(unbe32(z3.SubSeq(d, 5, 4)))])
-        elif fmt == "!d":
-            yield s2, mk_tuple([SV(FLOAT, unbe64(d))])
-        elif fmt == "!dd":
-            yield s2, mk_tuple([SV(FLOAT, unbe64(z3.SubSeq(d, 0, 8))), SV(FLOAT, unbe64(z3.SubSeq(d, 8, 8)))])
+        out, off = [], 0
+        for size, signed in fields:
+            piece = d if len(fields) == 1 else z3.SubSeq(d, off, size)
+            off += size
+            if signed is None:
+                out.append(SV(FLOAT, unbe64(piece)))
+                continue
+            i = uns8(piece) if size == 1 else unbe32(piece)
+            if not signed:
+                i = z3.If(i < 0, i + 2 ** (8 * size), i)
+            out.append(mk_int(i))
+        yield s2, mk_tuple(out)
 
 
 def struct_calcsize(ex, args, kwargs, st, sink, node):
-    yield st, mk_int(STRUCT_SIZES[_const_str(args[0])])
+    yield st, mk_int(sum(sz for sz, _ in _struct_fmt(_const_str(args[0]))))
 
 
 # --------------------------------------------------------------------------
